@@ -389,7 +389,9 @@ func decode(thread *starlark.Thread, b *starlark.Builtin, args starlark.Tuple, k
 					closed = true
 					j++ // skip '"'
 					break
-				} else if b >= utf8.RuneSelf {
+				} else if b < ' ' || b >= utf8.RuneSelf {
+					// Control characters must be escaped (RFC 8259);
+					// encoding/json rejects them.
 					safe = false
 				}
 			}
